@@ -520,6 +520,13 @@ func (s *racState) Write(b []byte) (int, error) { s.out = append(s.out, b...); r
 func (s *racState) Width() (int, bool)          { return s.wid, s.hasW }
 func (s *racState) Precision() (int, bool)      { return s.prec, s.hasP }
 func (s *racState) Flag(c int) bool             { return strings.IndexByte(s.flags, byte(c)) >= 0 }
+// racLog: what has been written to the state (old: before the call under test - the harness starts with an empty log)
+func racLog(s fmt.State, old bool) []byte {
+	if old {
+		return nil
+	}
+	return s.(*racState).out
+}
 func genState(rng__ *rand.Rand) fmt.State {
 	st := &racState{flags: []string{"", "", "+", "-", " ", "#", "0", "+0", "-0", "+-# 0"}[rng__.Intn(10)]}
 	st.wid, st.hasW = []int{0, 1, 5, 40}[rng__.Intn(4)], rng__.Intn(2) == 0
